@@ -74,6 +74,13 @@ def miri_core_job(pid, profile, tier, quick_seeds=6, thorough_seeds=160):
             "miri_seeds": T(tier, quick_seeds, thorough_seeds), "timeout": 1500}
 
 
+def miri_token_job(pid, profile, tier, val="arc", quick_seeds=6, thorough_seeds=128):
+    """The seeded token scheduler under Miri: deterministic interleavings at every step point, judged by Miri (provenance, dangling
+    pointer arithmetic, uninitialised memory, aliasing); the token hand-over synchronises the threads, so no weak-memory effects here."""
+    return {"name": "%s.miri.token.%s" % (pid, val), "flavour": "miri", "args": ["core", "profile=" + profile, "mode=token", "alloc=real", "val=" + val, "execs=%d" % T(tier, 2, 4),
+            "threads=3", "ops_lo=4", "ops_hi=6"], "miri_seeds": T(tier, quick_seeds, thorough_seeds), "timeout": 1800}
+
+
 def plan_core(pid, profile, level_text, extra_jobs=None, required=WINDOW_PATHS, asan=True, memcheck=False):
     def jobs(tier, seed):
         js = [
@@ -195,7 +202,8 @@ def plan_c07():
 PLANS = {}
 PLANS["C01"] = plan_core("C01", "c01", "ledger + sanitizers over scheduled executions", memcheck=True,
                          extra_jobs=lambda tier, seed: miri_race_jobs("C01", tier, [("a", "tp"), ("b", "tp"), ("c", "arc"), ("e", "arc")], 6, 256) + miri_min_jobs("C01", tier)
-                         + [{"name": "C01.miri.reent", "flavour": "miri", "args": ["reent"], "miri_seeds": T(tier, 2, 16), "timeout": 900}])
+                         + [{"name": "C01.miri.reent", "flavour": "miri", "args": ["reent"], "miri_seeds": T(tier, 2, 16), "timeout": 900},
+                            miri_token_job("C01", "c05", tier, "arc"), miri_token_job("C01", "c01", tier, "tp", 4, 96)])
 PLANS["C02"] = plan_core("C02", "c02", "conservation law at quiescent points", memcheck=True,
                          extra_jobs=lambda tier, seed: miri_race_jobs("C02", tier, [("a", "tp"), ("c", "tp"), ("b", "arc")], 8, 192))
 PLANS["C03"] = plan_core("C03", "c03", "history linearizability", asan=False,
